@@ -218,10 +218,14 @@ theorem needed_of {fd : List Spec} {s : Spec} {e : EnvEntry} {v : Value}
   rw [List.any_eq_true]
   exact ⟨e, he, hm⟩
 
+theorem compile_congr {A B : List Value} {s : Spec}
+    (h : bindEnv A s.ns s.env = bindEnv B s.ns s.env) : compile A s = compile B s := by
+  unfold compile
+  rw [h]
+
 theorem compile_fetched {st : St} {f : Filter} {s : Spec} (hs : s ∈ found st f) :
     compile (fetched st f) s = compile (enum st.vals) s := by
-  unfold compile
-  congr 1
+  apply compile_congr
   apply bindEnv_congr
   intro e he
   unfold resolve fetched
@@ -637,9 +641,8 @@ theorem compile_patched {a b : List Value} {w : Nat} {cur : Option Value} (s : S
     (hp : Patched a b w cur)
     (hsel : isBound (compile (enum a) s) (probesOf cur w) = false) :
     compile (enum b) s = compile (enum a) s := by
-  unfold compile at hsel ⊢
-  congr 1
-  unfold isBound at hsel
+  apply compile_congr
+  unfold compile isBound at hsel
   cases hb : bindEnv (enum a) s.ns s.env with
   | none =>
     simp only [hb] at hsel
@@ -704,8 +707,7 @@ theorem rel_iff {ns : Nat} {x y : Option Value} (h : rel ns x = rel ns y) {v : V
 theorem compile_agree {a b : List Value} (s : Spec)
     (h : ∀ k, rel s.ns (lookup a k) = rel s.ns (lookup b k)) :
     compile (enum a) s = compile (enum b) s := by
-  unfold compile
-  congr 1
+  apply compile_congr
   apply bindEnv_congr
   intro e _
   apply resolve_congr
